@@ -629,6 +629,16 @@ func (child *partitionConsumer) parseResponse(response *FetchResponse) ([]*Consu
 					child.fetchSize = child.conf.Consumer.Fetch.Max
 				}
 			}
+		} else {
+			// complete batches that carry no records (e.g. emptied by compaction): move past
+			// them, otherwise the same empty batches are fetched again forever
+			for _, records := range block.RecordsSet {
+				if records.recordsType == defaultRecords && records.RecordBatch != nil {
+					if next := records.RecordBatch.LastOffset() + 1; next > child.offset {
+						child.offset = next
+					}
+				}
+			}
 		}
 
 		return nil, nil
